@@ -20,7 +20,8 @@ def _rerun(args):
 
 
 def _job(ctx, name, trace, replay, lens=None):
-    return runner.TraceJob(name, "RangeTrace", trace, {"Lens": core.tla_set(lens or [ctx.prop])}, chunk=20000, replay=replay)
+    return runner.TraceJob(name, "RangeTrace", trace, {"Lens": core.tla_set(lens or [ctx.prop])}, chunk=20000, replay=replay,
+                           attempts=6)     # behaviour that depends on the wall clock (which half of a second) needs several re-executions to show again
 
 
 def sharded(ctx, name, args, shards, scenarios=None, per_process=2500):
